@@ -180,6 +180,29 @@ func c19Run(c *core.Ctx) {
 		}
 	}
 	r.Bound("digraphs", fmt.Sprintf("all digraphs with self-loops on n<=%d nodes x every root", maxN))
+	if maxN < 5 {
+		// quick: the complete family of 5-node flow graphs with an entry node
+		// (node 0 is the root and has no incoming edge): 2^20 graphs
+		const n = 5
+		for code := uint64(0); code < 1<<20; code++ {
+			if !c.Mine() {
+				continue
+			}
+			// spread the 20 bits over the matrix, skipping column 0
+			var full uint64
+			b := uint(0)
+			for u := 0; u < n; u++ {
+				for v := 1; v < n; v++ {
+					if code>>b&1 != 0 {
+						full |= 1 << uint(u*n+v)
+					}
+					b++
+				}
+			}
+			run(enum.Digraph(n, full), 0)
+		}
+		r.Bound("entry_graphs_5", "all 2^20 digraphs on 5 nodes in which the root 0 has no incoming edge")
+	}
 	// multigraphs n <= 3, adjacency sequences of length <= 3
 	for n := 1; n <= 3; n++ {
 		var lists [][]int
